@@ -138,6 +138,22 @@ def d2(ctx, prog):
             f = inline.inlined(prog, f, skip={'_moving_argument_check', '_check_and_cast_args'})
             raw = array_params(prog, f0)
             arrays = set(raw)
+            pm_ = astutil.parents(f.node)
+
+            def conditional_cast(st_):
+                """a cast that only some paths take cleans nothing - unless the paths that skip it already hold float64 data
+                (`if x.dtype != float64: x = x.astype(float64)`); `dtype.kind != 'f'` lets float32 / float16 through"""
+                cur = pm_.get(st_)
+                while cur is not None and cur is not f.node:
+                    if isinstance(cur, (ast.If, ast.IfExp)):
+                        t_ = norm(cur.test).replace(' ', '').replace('"', "'")
+                        ok_ = ('.dtype!=' in t_ and 'float64' in t_) or ('.dtype==' in t_ and 'float64' in t_ and any(x is st_ for b in cur.orelse for x in ast.walk(b)))
+                        if not ok_:
+                            return True
+                    elif isinstance(cur, (ast.For, ast.While, ast.Try)):
+                        return True
+                    cur = pm_.get(cur)
+                return False
             for st in astutil.stmts_of(f.node):
                 # sinks in this statement are judged against the state *before* it
                 for n in ast.walk(st):
@@ -187,9 +203,11 @@ def d2(ctx, prog):
                     # locals derived from the arrays: a float64 cast gives a clean array, anything else computed from a raw array is raw
                     tg_ = st.targets[0].id
                     reads_ = astutil.value_names_read(st.value)
-                    if is_cast(prog, f, st.value):
+                    if is_cast(prog, f, st.value) and not conditional_cast(st):
                         arrays.add(tg_)
                         raw.discard(tg_)
+                    elif is_cast(prog, f, st.value):
+                        arrays.add(tg_)            # stays raw if it was: some paths skip the cast
                     elif keeps_dtype(st.value, raw):
                         arrays.add(tg_)
                         raw.add(tg_)
@@ -198,7 +216,7 @@ def d2(ctx, prog):
                         raw.discard(tg_)
                 if isinstance(st, ast.Assign):
                     tg = st.targets[0]
-                    if isinstance(tg, ast.Name) and tg.id in raw and is_cast(prog, f, st.value):
+                    if isinstance(tg, ast.Name) and tg.id in raw and is_cast(prog, f, st.value) and not conditional_cast(st):
                         v = st.value
                         src = v.func.value if isinstance(v.func, ast.Attribute) and v.func.attr == 'astype' else (v.args[0] if v.args else None)
                         if isinstance(src, ast.Name) and src.id == tg.id:
